@@ -481,6 +481,7 @@ def build(S):
     with numpy_shimmed():
         S.contract("geometry1", FN_G1, run_geometry1, expected_exceptions=(ValueError,), raises_ok=g1_raises_ok, shape="nx=1, ny=3", max_paths=200)
         S.contract("geometry1[x-neighbours]", FN_G1, lambda c: run_geometry1(c, True), expected_exceptions=(ValueError,), raises_ok=g1_raises_ok, shape="nx=1, ny=3, inner+outer neighbour", max_paths=200)
+        mk.add_mla_arith(S)  # the field formulas of geometry1 are evaluated location by location through it
         S.contract("createRegionObjects[pressure,ldn]", FN_CRO, run_cro("ldn"), expected_exceptions=(ValueError,), raises_ok=lambda p: True, shape="disconnected double null, sizes symbolic")
         S.contract("createRegionObjects[pressure,lsn]", FN_CRO, run_cro("lsn"), expected_exceptions=(ValueError,), raises_ok=lambda p: True, shape="single null")
         S.contract("profiles[extrapolate,psi increasing]", FN_INIT, run_extrapolate(True), shape="4 profile points")
